@@ -157,6 +157,51 @@ impl varlink::Interface for ScriptIface {
     }
 }
 
+/// A hand-written org.varlink.resolver with a fixed interface -> address table.
+pub struct ResolverIface {
+    pub table: Vec<(String, String)>,
+}
+
+impl varlink::Interface for ResolverIface {
+    fn get_description(&self) -> &'static str {
+        "interface org.varlink.resolver\nmethod GetInfo() -> (vendor: string, product: string, version: string, url: string, interfaces: []string)\nmethod Resolve(interface: string) -> (address: string)\nerror InterfaceNotFound (interface: string)\n"
+    }
+    fn get_name(&self) -> &'static str {
+        "org.varlink.resolver"
+    }
+    fn call_upgraded(&self, _call: &mut Call, _b: &mut dyn BufRead) -> varlink::Result<Vec<u8>> {
+        Ok(Vec::new())
+    }
+    fn call(&self, call: &mut Call) -> varlink::Result<()> {
+        let (method, params) = {
+            let r = call.get_request().unwrap();
+            (r.method.to_string(), r.parameters.clone())
+        };
+        match method.as_str() {
+            "org.varlink.resolver.GetInfo" => {
+                let ifs: Vec<&str> = self.table.iter().map(|(i, _)| i.as_str()).collect();
+                call.reply_struct(Reply::parameters(Some(json!({
+                    "vendor": "resolver-vendor", "product": "resolver", "version": "7", "url": "http://resolver/", "interfaces": ifs
+                }))))
+            }
+            "org.varlink.resolver.Resolve" => {
+                let want = params.as_ref().and_then(|p| p.get("interface")).and_then(|i| i.as_str()).map(|s| s.to_string());
+                match want {
+                    None => call.reply_invalid_parameter("interface".into()),
+                    Some(w) => match self.table.iter().find(|(i, _)| *i == w) {
+                        Some((_, a)) => call.reply_struct(Reply::parameters(Some(json!({ "address": a })))),
+                        None => call.reply_struct(Reply::error(
+                            "org.varlink.resolver.InterfaceNotFound",
+                            Some(json!({ "interface": w })),
+                        )),
+                    },
+                }
+            }
+            m => call.reply_method_not_found(m.to_string()),
+        }
+    }
+}
+
 pub struct SvcSpec {
     pub vendor: String,
     pub product: String,
